@@ -472,6 +472,64 @@ def alloc_tie(ctx, obs):
                            "timestamp column the real reader returns", {"recorded": o[0], "stored": o[1], "value": o[2]}, model, [o[3], o[4]])
 
 
+VIEW_MODULES = ["compression", "core", "encoding", "converted_types"]
+
+
+def translate_views(ctx):
+    """translators/views2coq.py: inventory of module-level / thread-local buffers of the reader modules and of the functions they escape
+    through, regenerated from the working tree; genproofs/GenViewsProofs.v: the inventory is empty, hence no page is decoded over the
+    dictionary read_col holds (Impl/RAlias.v)"""
+    import subprocess
+    srcs = [os.path.join(C.REPO, "fastparquet", m + ".py") for m in VIEW_MODULES]
+    p = subprocess.run([C.PY, os.path.join(C.VERIF, "translators", "views2coq.py")] + srcs, stdout=subprocess.PIPE, stderr=subprocess.PIPE)
+    if p.returncode != 0:
+        ctx.notes.append("translator_fallback: views2coq refused the source (%s); the dynamic aliasing check remains" % p.stderr.decode()[-300:].strip())
+        ctx.extra["translator_views2coq"] = "fallback"
+        return
+    txt = p.stdout.decode()
+    gen = os.path.join(ctx.gen_dir, "GenViews.v")
+    if not os.path.exists(gen) or open(gen).read() != txt:
+        open(gen, "w").write(txt)
+    ok, out = C.coqc(gen, extra_q=[(ctx.gen_dir, "PqGen")])
+    ctx.obligation("GenViews.v (inventory of long-lived buffers of the reader modules, regenerated) compiles", ok, out)
+    if ok:
+        gp = os.path.join(ctx.gen_dir, "GenViewsProofs.v")
+        shutil.copy(os.path.join(C.COQ, "genproofs", "GenViewsProofs.v"), gp)
+        ctx.coq_file(gp, extra_q=[(ctx.gen_dir, "PqGen")])
+    ctx.extra["translator_views2coq"] = "translated"
+    import re
+    ctx.extra["reader_module_buffers"] = re.findall(r'Definition module_buffers[^\[]*\[(.*?)\]\.', txt, re.S)[:1]
+
+
+def aliasing_oracle(ctx):
+    """results held across calls: what decompress_data / read_plain / read_dictionary_page returned for one page must not change when
+    the next page is decoded (every codec, sizes around 64 KiB and larger, same thread)"""
+    import numpy as np
+    C.use_shadow()
+    from fastparquet import compression, encoding
+    from fastparquet.compression import compress_data, decompress_data
+    rng = ctx.rng
+    for algo in ["SNAPPY", "GZIP", "LZ4", "ZSTD", "BROTLI", "LZ4_RAW", "UNCOMPRESSED"]:
+        for size in (1000, 65535, 65536, 65537, 200000):
+            a = np.frombuffer(bytes(rng.randrange(256) for _ in range(256)) * (size // 256 + 1), "uint8")[:size].copy()
+            b = np.frombuffer(bytes(rng.randrange(256) for _ in range(256)) * (size // 256 + 1), "uint8")[:size].copy()
+            case = {"aliasing": "decompress_data twice", "codec": algo, "size": size}
+            try:
+                ca, cb = compress_data(a.tobytes(), algo), compress_data(b.tobytes(), algo)
+                first = decompress_data(np.frombuffer(ca, "uint8"), size, algo)
+                held = encoding.read_plain(first, 2, size // 8)              # INT64 view of the page, as a dictionary would be
+                snapshot = np.array(held, copy=True)
+                second = decompress_data(np.frombuffer(cb, "uint8"), size, algo)
+                ok = bool((np.asarray(held) == snapshot).all()) and bytes(np.asarray(second).tobytes()) == b.tobytes()
+            except Exception as e:      # noqa: a codec that is not available is not an aliasing problem
+                ctx.count("aliasing_codec_unavailable", "%s: %s" % (algo, type(e).__name__))
+                continue
+            ctx.case(case)
+            if not ok:
+                ctx.fail({"component": "buffer lifetime", "codec": algo, "big": size >= 65536}, case,
+                         "the values read from a %d-byte %s page changed when the next page was decompressed" % (size, algo))
+
+
 def leaf_tag(l):
     """tag of harness/fmtgen.COLTYPES for a decoded leaf (physical, converted, logical), or None"""
     for (t, c, lg, tag) in G.COLTYPES:
@@ -1068,6 +1126,8 @@ def run(ctx):
     ctx.obligation("native code corresponds to the .pyx sources (DESIGN 4.5)", not diffs, repr(diffs[:3]))
     C.shadow()
     C.pqref()
+    translate_views(ctx)
+    aliasing_oracle(ctx)
     extraction_vs_kernel(ctx)
     convert_vs_model(ctx)
     ctx.rule = ("layout descriptions from harness/fmtgen.py encoded by the extracted spec encoder: a deterministic block (DECIMAL over FLBA widths "
